@@ -144,6 +144,7 @@ func emitCtor(c ctor) {
 		if c.fr == 0 && emitted%4 == 2 { // a caller may choose the transaction id, 0 included
 			pokeTransactionID(req, []uint16{0, 0, 1, 0xFFFF, 0x0100, 0x8000}[(emitted/4)%6])
 		}
+		looked(req)
 		_, p := projReq(req)
 		if c.fr == 0 && emitted%3 == 1 {
 			pokeProtocolID(req, uint16(1+emitted%65000))
@@ -334,6 +335,7 @@ func streamRtReq(seed uint64, thorough bool) {
 		if c.fr == 0 && emitted%5 == 3 { // transaction ids chosen by the caller, 0 included
 			pokeTransactionID(req, []uint16{0, 0, 1, 0xFFFF, 0x0100}[(emitted/5)%5])
 		}
+		looked(req)
 		tid, _ := projReq(req)
 		bytes := req.Bytes()
 		for _, w := range parserCodes(c, int(req.FunctionCode())) {
@@ -1287,10 +1289,23 @@ func isCoilSet(fc int, data []byte, start, addr uint16) V {
 		case 2:
 			bl = uint8(len(data) / 2)
 		}
+		// the lookup is made before and after the response value has been printed: the answer of
+		// a response must not depend on whether somebody logged it
+		var v0 bool
+		var err0 error
 		if fc == 1 {
-			v, err = packet.ReadCoilsResponse{UnitID: 1, CoilsByteLength: bl, Data: data}.IsCoilSet(start, addr)
+			r := packet.ReadCoilsResponse{UnitID: 1, CoilsByteLength: bl, Data: data}
+			v0, err0 = r.IsCoilSet(start, addr)
+			looked(r)
+			v, err = r.IsCoilSet(start, addr)
 		} else {
-			v, err = packet.ReadDiscreteInputsResponse{UnitID: 1, InputsByteLength: bl, Data: data}.IsInputSet(start, addr)
+			r := packet.ReadDiscreteInputsResponse{UnitID: 1, InputsByteLength: bl, Data: data}
+			v0, err0 = r.IsInputSet(start, addr)
+			looked(r)
+			v, err = r.IsInputSet(start, addr)
+		}
+		if v0 != v || (err0 == nil) != (err == nil) {
+			return L(I(97), Bool(v0), Bool(err0 == nil), Bool(v), Bool(err == nil))
 		}
 		if err != nil {
 			return vErr()
@@ -1383,13 +1398,21 @@ func coilReadback(fr int, start uint16, coils []bool) V {
 					if err != nil {
 						return L(I(3))
 					}
+					looked(req)
 					data = req.Data
+					if raw := req.Bytes(); len(raw) == 13+len(data) { // the device sees the frame, not the struct
+						data = raw[13:]
+					}
 				} else {
 					req, err := packet.NewWriteMultipleCoilsRequestRTU(1, start, coils)
 					if err != nil {
 						return L(I(3))
 					}
+					looked(req)
 					data = req.Data
+					if raw := req.Bytes(); len(raw) == 9+len(data) {
+						data = raw[7 : len(raw)-2]
+					}
 				}
 				// device: decode the request data by the specification's layout into memory
 				mem := make([]bool, n)
